@@ -400,4 +400,47 @@ Proof.
   destruct (cp_run cb g c1 ops) as [c2 rs]. cbn [snd combine map forallb]. rewrite H. exact IH.
 Qed.
 
+(* ---- C10: the number of transactions a connection holds ---- *)
+(* htp_connp_tx_create is the only function that appends to conn->transactions; it refuses when the list already
+   holds more than max_tx entries *)
+Lemma connp_tx_create_bound c :
+  (0 < g_max_tx g)%nat -> (length (c_txs c) <= S (g_max_tx g))%nat ->
+  (length (c_txs (snd (connp_tx_create g c))) <= S (g_max_tx g))%nat.
+Proof.
+  intros Hm Hl. unfold connp_tx_create.
+  set (c1 := if (c_out_next_tx_index c <? length (c_txs c))%nat then _ else c).
+  assert (Ht : c_txs c1 = c_txs c) by (subst c1; destruct (c_out_next_tx_index c <? length (c_txs c))%nat; reflexivity).
+  destruct ((0 <? g_max_tx g) && (g_max_tx g <? length (c_txs c)))%nat eqn:E; cbn [snd].
+  - rewrite Ht. exact Hl.
+  - cbn. rewrite Ht, app_length. cbn [length].
+    apply andb_false_iff in E. destruct E as [E|E].
+    + apply Nat.ltb_ge in E. lia.
+    + apply Nat.ltb_ge in E. lia.
+Qed.
+Lemma connp_tx_create_grows_by_one c :
+  length (c_txs (snd (connp_tx_create g c))) = length (c_txs c) \/
+  length (c_txs (snd (connp_tx_create g c))) = S (length (c_txs c)).
+Proof.
+  unfold connp_tx_create.
+  set (c1 := if (c_out_next_tx_index c <? length (c_txs c))%nat then _ else c).
+  assert (Ht : c_txs c1 = c_txs c) by (subst c1; destruct (c_out_next_tx_index c <? length (c_txs c))%nat; reflexivity).
+  destruct ((0 <? g_max_tx g) && (g_max_tx g <? length (c_txs c)))%nat; cbn [snd].
+  - left. rewrite Ht. reflexivity.
+  - right. cbn. rewrite Ht, app_length. cbn. lia.
+Qed.
+
+(* htp_connp_tx_freed removes every leading NULL slot: afterwards the list is empty or starts with a live transaction,
+   so with automatic disposal and tx_freed after each completion the list does not grow with the number of transactions *)
+Lemma tx_freed_loop_head fuel c r : (length (c_txs c) <= fuel)%nat ->
+  match c_txs (fst (tx_freed_loop fuel c r)) with None :: _ => False | _ => True end.
+Proof.
+  revert c r. induction fuel as [|f IH]; intros c r Hl; cbn [tx_freed_loop].
+  - cbn [fst]. destruct (c_txs c); [exact I|cbn in Hl; lia].
+  - destruct (c_txs c) as [|[t|] rest] eqn:E; cbn [fst]; try (rewrite E; exact I).
+    apply IH. cbn in *. lia.
+Qed.
+Theorem tx_freed_no_leading_null c :
+  match c_txs (fst (connp_tx_freed c)) with None :: _ => False | _ => True end.
+Proof. unfold connp_tx_freed. apply tx_freed_loop_head. lia. Qed.
+
 End P.
